@@ -23,6 +23,14 @@ func Parse(tmpl string) (Compiler, error) {
 	}
 	tokens, verb := tokenize(tmpl[1:])
 
+	// The parser accepts a "/" token in place of any other punctuation, so an empty path segment
+	// would silently become a wildcard ("/a//" would route like "/a/*/*").
+	for i, t := range tokens {
+		if t == "/" && (i == 0 || tokens[i-1] == "/" || tokens[i-1] == "=") {
+			return template{}, InvalidTemplateError{tmpl: tmpl, msg: "empty path segment"}
+		}
+	}
+
 	p := parser{tokens: tokens}
 	segs, err := p.topLevelSegments()
 	if err != nil {
